@@ -63,6 +63,7 @@ def replay_main(pid, path):
 
 
 def main(argv=None):
+    sys.set_int_max_str_digits(0)
     ap = argparse.ArgumentParser()
     ap.add_argument("pid")
     ap.add_argument("--tier", default=os.environ.get("VERIF_TIER", "quick"), choices=["quick", "thorough"])
